@@ -1,12 +1,13 @@
 #!/bin/bash
 # tools/seed_regress.sh: re-applies every stored seeded change to /repo, runs the check of the property it breaks,
-# reverts, and reports whether it is (still) caught. /repo must be clean.
+# reverts, and reports whether it is (still) caught. /repo must be clean. A seed whose meta.json has "expected_by" is
+# run against that property instead (S66: its own property does not distinguish the change, see its history note).
 cd /verif
 [ -n "$(git -C /repo status --porcelain | grep -v '^??')" ] && { echo "/repo not clean"; exit 2; }
 miss=0
 for d in seeded/*/; do
   id=$(basename $d)
-  prop=$(python3 -c "import json;print(json.load(open('$d/meta.json'))['breaks_property'])")
+  prop=$(python3 -c "import json;m=json.load(open('$d/meta.json'));print(m.get('expected_by') or m['breaks_property'])")
   if ! git -C /repo apply --check "$PWD/$d/patch.diff" 2>/dev/null; then echo "$id $prop: patch no longer applies"; continue; fi
   git -C /repo apply "$PWD/$d/patch.diff"
   out=$(./check $prop quick 2>&1); rc=$?
